@@ -40,8 +40,9 @@ ASSUMPTIONS = [
     "is only generated when the run has a step to use it on",
     "hooks return None except the BOC hook of the halting interface (returns True)",
     "couplers are the stock TightCoupler objects created from tightCouplingSettings; each coupled interaction changes the "
-    "interface's coupled value by 0, 0.25, 0.5, 2 or 8 tolerances (either sign; whole numbers for int values), so eps is never "
-    "within a factor 1.4 of the tolerance; the reference applies doc/user/physics_coupling.rst: |old-new| for scalars, L2 norm "
+    "interface's coupled value (scalar, vector of 2-6 entries, table of 2-6 x 1-4 entries; one entry, one per row, one row "
+    "or all entries) by 0, 0.3, 0.6, 3 or 8 tolerances per entry (either sign; whole numbers for int values), so no norm of "
+    "the change lies within 4 % of the tolerance; the reference applies doc/user/physics_coupling.rst: |old-new| for scalars, L2 norm "
     "for vectors, max of the row L2 norms for 2-D, converged when eps < tolerance",
     "enabled/bolForce are set through addInterface arguments and through Interface.enabled(flag)/bolForce(flag) on the "
     "object before or after it is added (also on an object that was attached with other flags and removed again); the "
@@ -244,15 +245,33 @@ def run_strategy(draw, tier="quick"):
             "hasFunction": draw(_biased(5)),
             "coupled": draw(_biased(5)),
             "tol": draw(st.sampled_from([1e-6, 1e-4, 1e-3, 0.05, 0.5, 2.0])),
-            "valueKind": draw(st.sampled_from(VALUE_KINDS)),
+            "valueKind": draw(st.sampled_from(VALUE_KINDS + ["float", "int"])),
             # change of the coupled value per coupled interaction, in tolerances: increasing, decreasing, oscillating, none
-            "factors": draw(st.lists(st.sampled_from([0.0, 0.0, 0.25, -0.25, 0.5, -0.5, 2.0, -2.0, 8.0, -8.0]), min_size=1, max_size=5)),
+            "factors": draw(st.lists(st.sampled_from([0.0, 0.0, 0.3, -0.3, 0.6, -0.6, 0.6, 3.0, -3.0, 8.0, -8.0]), min_size=1, max_size=5)),
+            # vectors of shape[0] entries / shape[0] x shape[1] tables; which entries a coupled interaction moves
+            "shape": [draw(st.integers(2, 6)), draw(st.integers(1, 4))],
+            "spread": draw(st.sampled_from(["one", "all", "all", "rows", "rows", "cols"])),
             # the two flags can also be set on the object itself, before or after it is added, and the object may have
             # been attached with other flags before ("enabled"/"bolForce" above are the addInterface arguments)
+            # deliberate shapes that separate the documented norms from their neighbours: one entry in each of >= 4 rows
+            # (max of rows < tol < L2 of rows), a whole row / a whole vector (every entry < tol < L2 of the entries)
+            "profile": draw(st.sampled_from(["free", "free", "free", "free", "free", "row-split", "row-split", "entry-split", "vector-split"])),
             "reuse": draw(st.one_of(st.none(), st.none(), st.none(), st.none(), st.none(), flag_pair)),
             "pre": draw(st.one_of(st.just([]), st.just([]), st.just([]), st.lists(flag_call, min_size=1, max_size=2))),
             "post": draw(st.one_of(st.just([]), st.just([]), st.lists(flag_call, min_size=1, max_size=2))),
         })
+    for e in stack:
+        profile = e.pop("profile")
+        if profile == "free":
+            continue
+        e["factors"] = [f if abs(f) in (0.0, 0.6) else (0.6 if f > 0 else -0.6) for f in e["factors"]] + [3.0]
+        e["shape"] = [max(e["shape"][0], 4), e["shape"][1]]
+        if profile == "row-split":
+            e["valueKind"], e["spread"] = "list2d", "rows"
+        elif profile == "entry-split":
+            e["valueKind"], e["spread"], e["shape"] = "list2d", "cols", [e["shape"][0], max(e["shape"][1], 3)]
+        else:
+            e["valueKind"], e["spread"] = ("list" if e["valueKind"] in ("float", "list", "list2d") else "ndarray"), "all"
     restart = draw(_biased(4))
     case = {
         "excluded": list(hist["excluded"]),
@@ -486,7 +505,7 @@ def make_recorders(r, cs, norm, trace):
 
         def __init__(self, r, cs):
             interfaces.Interface.__init__(self, r, cs)
-            self.value = sm.coupling_initial(self.entry["valueKind"])
+            self.value = sm.coupling_initial(self.entry["valueKind"], self.entry.get("shape", (2, 2)))
             self.calls = 0
 
         def _rec(self, ev, *args):
@@ -524,7 +543,8 @@ def make_recorders(r, cs, norm, trace):
                 e = self.entry
                 factor = e["factors"][self.calls % len(e["factors"])]
                 self.calls += 1
-                self.value = sm.coupling_advance(e["valueKind"], self.value, sm.coupling_step(e["valueKind"], factor, e["tol"]))
+                self.value = sm.coupling_advance(e["valueKind"], self.value, sm.coupling_step(e["valueKind"], factor, e["tol"]),
+                                                 e.get("spread", "all"))
 
         def getTightCouplingValue(self):
             return _armi_value(self.entry["valueKind"], self.value)
@@ -819,7 +839,7 @@ def run_execute(case):
             out.label("coupling:two-couplers")
         if any(c in cfg["coupling"]["skip"] for c in cycles_run):
             out.label("coupling:cycle-skipped")
-        out.label(*["coupling:not-converged-" + n for n in sorted(sched.notes)])
+        out.label(*["coupling:" + n for n in sorted(sched.notes)])
     names_in = set(norm["order"])
     if any(n in names_in for n in cfg["deferredNames"]):
         out.label("deferred")
